@@ -12,6 +12,8 @@ Conventions (from `ESFResult.apply_pdf`): `t = ln(Q²/μ_F²)` multiplies key co
 -/
 import YadismModel.Model.Orders
 import YadismModel.Generated.Projectors
+import YadismModel.Lemmas.MatBridge
+import Mathlib.Tactic.Abel
 import Mathlib.Tactic.Ring
 import Mathlib.Tactic.Linarith
 import Mathlib.Tactic.LinearCombination
@@ -19,15 +21,18 @@ import Mathlib.Tactic.NormNum
 import Mathlib.Algebra.Algebra.Basic
 import Mathlib.Algebra.Order.Field.Rat
 
+set_option linter.unusedSectionVars false
+
 namespace Yadism.C05
 
-open Yadism
+open Yadism Yadism.MatBridge
 
 section Fact
 variable {A : Type} [CommRing A] [Algebra ℚ A]
 
 /-- the operator algebra of the theorems: a commutative ℚ-algebra -/
-local instance : OpAlg A := ⟨(· + ·), (· - ·), fun k a => k • a, 0⟩
+@[reducible] def algOpAlg : OpAlg A := ⟨(· + ·), (· - ·), fun k a => k • a, 0⟩
+attribute [local instance] algOpAlg
 
 /-- hypotheses tying the "convolved" labels to products in the convolution algebra
 (what `splitting_functions/nlo/convolutions.py` claims to implement) -/
@@ -123,6 +128,151 @@ theorem fact_rge_nonsinglet (ops : Label → A) (hp : Products ops) (b0 : ℚ) (
       | linear_combination (ops .Pqq0 * ops .Pqq0 * c0 - (algebraMap ℚ A) b0 * ops .Pqq0 * c0) * h2
 
 end Fact
+
+/-! ## Flavour ⊗ x space: from the matrix-unit relations to the sector algebra -/
+
+section FlavourSpace
+variable {A : Type} [CommRing A] [Algebra ℚ A]
+variable {R : Type} [Ring R] [Algebra A R]
+attribute [local instance] algOpAlg
+
+/-- the matrix-unit relations `unitRelations` decides for eko's projectors, for abstract elements
+of a ring (`e s` = the projector of sector `s`; row-vector convention: `e qg` sends the
+quark-singlet component onto the gluon) -/
+structure UnitRel (e : Sector → R) : Prop where
+  qq_qq : e .qq * e .qq = e .qq
+  qq_qg : e .qq * e .qg = e .qg
+  qq_gq : e .qq * e .gq = 0
+  qq_gg : e .qq * e .gg = 0
+  qg_qq : e .qg * e .qq = 0
+  qg_qg : e .qg * e .qg = 0
+  qg_gq : e .qg * e .gq = e .qq
+  qg_gg : e .qg * e .gg = e .qg
+  gq_qq : e .gq * e .qq = e .gq
+  gq_qg : e .gq * e .qg = e .gg
+  gq_gq : e .gq * e .gq = 0
+  gq_gg : e .gq * e .gg = 0
+  gg_qq : e .gg * e .qq = 0
+  gg_qg : e .gg * e .qg = 0
+  gg_gq : e .gg * e .gq = e .gq
+  gg_gg : e .gg * e .gg = e .gg
+  ns_idem : ∀ s, s = .nsp ∨ s = .nsm ∨ s = .nsv → e s * e s = e s
+  ns_orth : ∀ s t, (s = .nsp ∨ s = .nsm ∨ s = .nsv) → s ≠ t → e s * e t = 0 ∧ e t * e s = 0
+
+/-- a sector map as one operator on flavour ⊗ x space: `Σ_s F_s ⊗ π_s` -/
+def E (e : Sector → R) (F : Sector → A) : R :=
+  F .qq • e .qq + F .qg • e .qg + F .gq • e .gq + F .gg • e .gg
+    + F .nsp • e .nsp + F .nsm • e .nsm + F .nsv • e .nsv
+
+/-- sector-wise product: 2×2 matrix product in the (quark-singlet, gluon) block, scalar product in
+each non-singlet sector -/
+def star (F G : Sector → A) : Sector → A
+  | .qq => F .qq * G .qq + F .qg * G .gq
+  | .qg => F .qq * G .qg + F .qg * G .gg
+  | .gq => F .gq * G .qq + F .gg * G .gq
+  | .gg => F .gq * G .qg + F .gg * G .gg
+  | .nsp => F .nsp * G .nsp
+  | .nsm => F .nsm * G .nsm
+  | .nsv => F .nsv * G .nsv
+
+theorem E_mul (e : Sector → R) (h : UnitRel e) (F G : Sector → A) :
+    E e F * E e G = E e (star F G) := by
+  have o := h.ns_orth
+  have hp := h.ns_idem .nsp (by simp)
+  have hm := h.ns_idem .nsm (by simp)
+  have hv := h.ns_idem .nsv (by simp)
+  have p_qq := o .nsp .qq (by simp) (by simp)
+  have p_qg := o .nsp .qg (by simp) (by simp)
+  have p_gq := o .nsp .gq (by simp) (by simp)
+  have p_gg := o .nsp .gg (by simp) (by simp)
+  have p_m := o .nsp .nsm (by simp) (by simp)
+  have p_v := o .nsp .nsv (by simp) (by simp)
+  have m_qq := o .nsm .qq (by simp) (by simp)
+  have m_qg := o .nsm .qg (by simp) (by simp)
+  have m_gq := o .nsm .gq (by simp) (by simp)
+  have m_gg := o .nsm .gg (by simp) (by simp)
+  have m_v := o .nsm .nsv (by simp) (by simp)
+  have v_qq := o .nsv .qq (by simp) (by simp)
+  have v_qg := o .nsv .qg (by simp) (by simp)
+  have v_gq := o .nsv .gq (by simp) (by simp)
+  have v_gg := o .nsv .gg (by simp) (by simp)
+  simp only [E, star, mul_add, add_mul, smul_mul_smul_comm,
+    h.qq_qq, h.qq_qg, h.qq_gq, h.qq_gg, h.qg_qq, h.qg_qg, h.qg_gq, h.qg_gg,
+    h.gq_qq, h.gq_qg, h.gq_gq, h.gq_gg, h.gg_qq, h.gg_qg, h.gg_gq, h.gg_gg, hp, hm, hv,
+    p_qq.1, p_qq.2, p_qg.1, p_qg.2, p_gq.1, p_gq.2, p_gg.1, p_gg.2, p_m.1, p_m.2, p_v.1, p_v.2,
+    m_qq.1, m_qq.2, m_qg.1, m_qg.2, m_gq.1, m_gq.2, m_gg.1, m_gg.2, m_v.1, m_v.2,
+    v_qq.1, v_qq.2, v_qg.1, v_qg.2, v_gq.1, v_gq.2, v_gg.1, v_gg.2, smul_zero, add_zero, zero_add,
+    add_smul]
+  abel
+
+
+/-- the unit of the sector algebra; `E e oneS` is the sum of the five diagonal projectors, which
+`unitRelations` shows to be the identity on the active flavours -/
+def oneS : Sector → A
+  | .qq | .gg | .nsp | .nsm | .nsv => 1
+  | .qg | .gq => 0
+
+theorem E_add (e : Sector → R) (F G : Sector → A) : E e (fun s => F s + G s) = E e F + E e G := by
+  simp only [E, add_smul]; abel
+
+theorem E_sub (e : Sector → R) (F G : Sector → A) : E e (fun s => F s - G s) = E e F - E e G := by
+  simp only [E, sub_smul]; abel
+
+theorem E_smul (e : Sector → R) (k : A) (F : Sector → A) : E e (fun s => k * F s) = k • E e F := by
+  simp only [E, mul_smul, smul_add]
+
+/-- a flavour ⊗ x element without gluon component sees only the quark rows of a sector map -/
+theorem E_congr_no_gluon (e : Sector → R) (X : R) (hq : X * e .gq = 0) (hg : X * e .gg = 0)
+    (F G : Sector → A) (hqq : F .qq = G .qq) (hqg : F .qg = G .qg) (hp : F .nsp = G .nsp)
+    (hm : F .nsm = G .nsm) (hv : F .nsv = G .nsv) : X * E e F = X * E e G := by
+  simp only [E, mul_add, mul_smul_comm, hq, hg, smul_zero, hqq, hqg, hp, hm, hv]
+
+/-- **Factorisation-scale RGE in flavour ⊗ x space.**  `X0`, `X1` are the LO and NLO coefficient
+functions as elements of flavour ⊗ x space (`weights ⊗ c`); the code forms
+`K = X · Σ_s π_s ⊗ F_s` (`partons @ projectors`, `fmat @ values`).  With the matrix-unit relations
+for the projectors, `X0` without gluon component and `X1` supported on the active flavours, the
+three RGE residuals of `fact_rge_singlet`/`fact_rge_nonsinglet` vanish *as flavour-space
+operators*, with the full DGLAP kernels `𝒫0 = Σ_s π_s ⊗ P_s^(0)`, `𝒫1 = Σ_s π_s ⊗ P_s^(1)`. -/
+theorem fact_rge_flavour_space (ops : Label → A) (hp : Products ops) (b0 : ℚ)
+    (e : Sector → R) (h : UnitRel e) (X0 X1 : R)
+    (hq : X0 * e .gq = 0) (hg : X0 * e .gg = 0) (h1 : X1 * E e (oneS : Sector → A) = X1)
+    (Pgq1 Pgg1 : A) :
+    let K11 := X0 * E e (F110 ops)
+    let K21 := X0 * E e (F210 ops) + X1 * E e (F211 ops b0)
+    let K22 := X0 * E e (F220 ops b0)
+    let P0 := E e (jointLo ops true)
+    let P1 := E e (fun s => match s with | .gq => Pgq1 | .gg => Pgg1 | s => F210 ops s)
+    let β : A := algebraMap ℚ A b0
+    K11 = X0 * P0 ∧
+    K21 = X1 * P0 + X0 * P1 - β • X1 ∧
+    (2 : A) • K22 = K11 * P0 - β • K11 := by
+  intro K11 K21 K22 P0 P1 β
+  have h2 : (algebraMap ℚ A) 2 * (algebraMap ℚ A) 2⁻¹ = 1 := by
+    rw [← map_mul]; norm_num
+  have h2' : (2 : A) * (algebraMap ℚ A) 2⁻¹ = 1 := by
+    rw [show (2 : A) = algebraMap ℚ A 2 from (map_ofNat (algebraMap ℚ A) 2).symm]; exact h2
+  refine ⟨?_, ?_, ?_⟩
+  · exact E_congr_no_gluon e X0 hq hg _ _ rfl rfl rfl rfl rfl
+  · have e1 : X0 * E e (F210 ops) = X0 * P1 :=
+      E_congr_no_gluon e X0 hq hg _ _ rfl rfl rfl rfl rfl
+    have e2 : F211 ops b0 = fun s => jointLo ops true s - β * oneS s := by
+      funext s
+      cases s <;> simp [F211, jointLo, c211, oneS, OpAlg.sub, OpAlg.smul, Algebra.smul_def, β]
+    have e3 : X1 * E e (F211 ops b0) = X1 * P0 - β • X1 := by
+      rw [e2, E_sub, E_smul, mul_sub, mul_smul_comm, h1]
+    show X0 * E e (F210 ops) + X1 * E e (F211 ops b0) = _
+    rw [e1, e3]; abel
+  · have e1 : (fun s => (2 : A) * F220 ops b0 s)
+        = fun s => star (F110 ops) (jointLo ops true) s - β * F110 ops s := by
+      funext s
+      cases s <;>
+        simp [F220, F110, star, jointLo, c220, OpAlg.add, OpAlg.sub, OpAlg.smul, OpAlg.zero,
+          Algebra.smul_def, β, hp.qqsq, hp.qggq, hp.qqqg, hp.qggg]
+      all_goals rw [← mul_assoc, h2', one_mul]
+    show (2 : A) • (X0 * E e (F220 ops b0)) = X0 * E e (F110 ops) * E e (jointLo ops true) - β • (X0 * E e (F110 ops))
+    rw [mul_assoc, E_mul e h, ← mul_smul_comm, ← E_smul, e1, E_sub, E_smul, mul_sub, mul_smul_comm]
+
+end FlavourSpace
 
 /-! ## Renormalisation scale -/
 
@@ -265,5 +415,195 @@ theorem projector_relations :
     ∧ unitRelations Yadism.Gen.projectors5 14 (activeIdent 5) = true
     ∧ unitRelations Yadism.Gen.projectors6 14 (activeIdent 6) = true := by
   decide +kernel
+
+section Eko
+variable {A : Type} [CommRing A] [Algebra ℚ A]
+
+/-- a list-of-rows rational matrix as an operator on flavour ⊗ x space (entries in `A`) -/
+def M (n : Nat) (m : QMat) : Matrix (Fin n) (Fin n) A := (toMat n m).map (algebraMap ℚ A)
+
+theorem M_mul (n : Nat) (a b c : QMat) (ha : wellShaped n a = true) (h : (QMat.mul a b n == c) = true) :
+    (M n a : Matrix (Fin n) (Fin n) A) * M n b = M n c := by
+  have := eq_of_beq h
+  unfold M
+  rw [← this, toMat_mul n a b ha, Matrix.map_mul]
+
+theorem M_zero (n : Nat) : (M n (QMat.zero n) : Matrix (Fin n) (Fin n) A) = 0 := by
+  unfold M; rw [toMat_zero]; simp
+
+theorem M_add (n : Nat) (a b : QMat) (ha : wellShaped n a = true) (hb : wellShaped n b = true) :
+    (M n (QMat.add a b) : Matrix (Fin n) (Fin n) A) = M n a + M n b := by
+  unfold M
+  rw [toMat_add n a b ha hb, Matrix.map_add _ (map_add _)]
+
+/-- eko's sector keys -/
+def key : Sector → Nat × Nat
+  | .qq => (100, 100) | .qg => (100, 21) | .gq => (21, 100) | .gg => (21, 21)
+  | .nsm => (10201, 0) | .nsp => (10101, 0) | .nsv => (10200, 0)
+
+variable (t : ProjTable) (n : Nat) (ident : QMat)
+  (hs : ∀ k ∈ sgKeys ++ nsKeys, wellShaped n (t.get k n) = true)
+  (h : unitRelations t n ident = true)
+include hs h
+
+theorem sg_rel (k1 k2 : Nat × Nat) (h1 : k1 ∈ sgKeys) (h2 : k2 ∈ sgKeys) :
+    (M n (t.get k1 n) : Matrix (Fin n) (Fin n) A) * M n (t.get k2 n)
+      = if k1.2 = k2.1 then M n (t.get (k1.1, k2.2) n) else 0 := by
+  simp only [unitRelations, Bool.and_eq_true, List.all_eq_true] at h
+  have := h.1.1.1 k1 h1 k2 h2
+  rw [M_mul n _ _ _ (hs k1 (List.mem_append_left _ h1)) this]
+  split
+  · rfl
+  · exact M_zero n
+
+theorem ns_rel (k1 k2 : Nat × Nat) (h1 : k1 ∈ nsKeys) (h2 : k2 ∈ nsKeys) :
+    (M n (t.get k1 n) : Matrix (Fin n) (Fin n) A) * M n (t.get k2 n)
+      = if k1 = k2 then M n (t.get k1 n) else 0 := by
+  simp only [unitRelations, Bool.and_eq_true, List.all_eq_true] at h
+  have := h.1.1.2 k1 h1 k2 h2
+  rw [M_mul n _ _ _ (hs k1 (List.mem_append_right _ h1)) this]
+  split
+  · rfl
+  · exact M_zero n
+
+theorem ns_sg (k1 k2 : Nat × Nat) (h1 : k1 ∈ nsKeys) (h2 : k2 ∈ sgKeys) :
+    (M n (t.get k1 n) : Matrix (Fin n) (Fin n) A) * M n (t.get k2 n) = 0
+    ∧ (M n (t.get k2 n) : Matrix (Fin n) (Fin n) A) * M n (t.get k1 n) = 0 := by
+  simp only [unitRelations, Bool.and_eq_true, List.all_eq_true] at h
+  have := h.1.2 k1 h1 k2 h2
+  exact ⟨by rw [M_mul n _ _ _ (hs k1 (List.mem_append_right _ h1)) this.1, M_zero],
+    by rw [M_mul n _ _ _ (hs k2 (List.mem_append_left _ h2)) this.2, M_zero]⟩
+
+/-- **the projectors of a table that passes `unitRelations` are matrix units** -/
+theorem unitRel_of_relations :
+    UnitRel (fun s => (M n (t.get (key s) n) : Matrix (Fin n) (Fin n) A)) := by
+  have sg := fun k1 k2 h1 h2 => sg_rel (A := A) t n ident hs h k1 k2 h1 h2
+  have ns := fun k1 k2 h1 h2 => ns_rel (A := A) t n ident hs h k1 k2 h1 h2
+  have nsg := fun k1 k2 h1 h2 => ns_sg (A := A) t n ident hs h k1 k2 h1 h2
+  refine ⟨?_, ?_, ?_, ?_, ?_, ?_, ?_, ?_, ?_, ?_, ?_, ?_, ?_, ?_, ?_, ?_, ?_, ?_⟩
+  · simpa [key] using sg (100, 100) (100, 100) (by decide) (by decide)
+  · simpa [key] using sg (100, 100) (100, 21) (by decide) (by decide)
+  · simpa [key] using sg (100, 100) (21, 100) (by decide) (by decide)
+  · simpa [key] using sg (100, 100) (21, 21) (by decide) (by decide)
+  · simpa [key] using sg (100, 21) (100, 100) (by decide) (by decide)
+  · simpa [key] using sg (100, 21) (100, 21) (by decide) (by decide)
+  · simpa [key] using sg (100, 21) (21, 100) (by decide) (by decide)
+  · simpa [key] using sg (100, 21) (21, 21) (by decide) (by decide)
+  · simpa [key] using sg (21, 100) (100, 100) (by decide) (by decide)
+  · simpa [key] using sg (21, 100) (100, 21) (by decide) (by decide)
+  · simpa [key] using sg (21, 100) (21, 100) (by decide) (by decide)
+  · simpa [key] using sg (21, 100) (21, 21) (by decide) (by decide)
+  · simpa [key] using sg (21, 21) (100, 100) (by decide) (by decide)
+  · simpa [key] using sg (21, 21) (100, 21) (by decide) (by decide)
+  · simpa [key] using sg (21, 21) (21, 100) (by decide) (by decide)
+  · simpa [key] using sg (21, 21) (21, 21) (by decide) (by decide)
+  · intro s hs'
+    rcases hs' with rfl | rfl | rfl
+    · simpa [key] using ns (10101, 0) (10101, 0) (by decide) (by decide)
+    · simpa [key] using ns (10201, 0) (10201, 0) (by decide) (by decide)
+    · simpa [key] using ns (10200, 0) (10200, 0) (by decide) (by decide)
+  · intro s u hs' hne
+    have hk : key s ∈ nsKeys := by rcases hs' with rfl | rfl | rfl <;> decide
+    have hne' : key s ≠ key u := by
+      intro e; apply hne; revert e; cases s <;> cases u <;> decide
+    by_cases hu : key u ∈ nsKeys
+    · have a := ns (key s) (key u) hk hu
+      have b := ns (key u) (key s) hu hk
+      rw [if_neg hne'] at a
+      rw [if_neg (Ne.symm hne')] at b
+      exact ⟨a, b⟩
+    · have hu' : key u ∈ sgKeys := by
+        revert hu; cases u <;> decide
+      exact nsg (key s) (key u) hk hu'
+
+end Eko
+
+section Ident
+variable {A : Type} [CommRing A] [Algebra ℚ A]
+
+/-- the five diagonal projectors add up to `ident` (the unit of the sector algebra is the identity
+on the active flavours) -/
+theorem ident_rel (t : ProjTable) (n : Nat) (ident : QMat)
+    (hs : ∀ k ∈ sgKeys ++ nsKeys, wellShaped n (t.get k n) = true)
+    (h : unitRelations t n ident = true) :
+    E (fun s => (M n (t.get (key s) n) : Matrix (Fin n) (Fin n) A)) (oneS : Sector → A) = M n ident := by
+  simp only [unitRelations, Bool.and_eq_true] at h
+  have hd := eq_of_beq h.2
+  simp only [List.foldl] at hd
+  have s1 := hs (100, 100) (by decide)
+  have s2 := hs (21, 21) (by decide)
+  have s3 := hs (10201, 0) (by decide)
+  have s4 := hs (10101, 0) (by decide)
+  have s5 := hs (10200, 0) (by decide)
+  have w1 := wellShaped_add n _ _ (wellShaped_zero n) s1
+  have w2 := wellShaped_add n _ _ w1 s2
+  have w3 := wellShaped_add n _ _ w2 s3
+  have w4 := wellShaped_add n _ _ w3 s4
+  rw [← hd, M_add n _ _ w4 s5, M_add n _ _ w3 s4, M_add n _ _ w2 s3, M_add n _ _ w1 s2,
+    M_add n _ _ (wellShaped_zero n) s1, M_zero]
+  simp only [E, oneS, key, one_smul, zero_smul, add_zero, zero_add]
+  abel
+
+end Ident
+
+/-! ### eko's actual projectors -/
+
+section EkoTables
+variable {A : Type} [CommRing A] [Algebra ℚ A]
+attribute [local instance] algOpAlg
+
+/-- all 28 regenerated matrices are 14×14 -/
+theorem projectors_shaped :
+    (∀ k ∈ sgKeys ++ nsKeys, wellShaped 14 (Yadism.Gen.projectors3.get k 14) = true)
+    ∧ (∀ k ∈ sgKeys ++ nsKeys, wellShaped 14 (Yadism.Gen.projectors4.get k 14) = true)
+    ∧ (∀ k ∈ sgKeys ++ nsKeys, wellShaped 14 (Yadism.Gen.projectors5.get k 14) = true)
+    ∧ (∀ k ∈ sgKeys ++ nsKeys, wellShaped 14 (Yadism.Gen.projectors6.get k 14) = true) := by
+  decide +kernel
+
+/-- eko's table for `nf` flavours -/
+def ekoTable : Nat → ProjTable
+  | 3 => Yadism.Gen.projectors3
+  | 4 => Yadism.Gen.projectors4
+  | 5 => Yadism.Gen.projectors5
+  | _ => Yadism.Gen.projectors6
+
+/-- **eko's projectors are matrix units**, as operators on flavour ⊗ x space, for nf = 3…6 -/
+theorem eko_unitRel (nf : Nat) (hnf : nf = 3 ∨ nf = 4 ∨ nf = 5 ∨ nf = 6) :
+    UnitRel (fun s => (M 14 ((ekoTable nf).get (key s) 14) : Matrix (Fin 14) (Fin 14) A)) := by
+  rcases hnf with rfl | rfl | rfl | rfl
+  · exact unitRel_of_relations _ 14 (activeIdent 3) projectors_shaped.1 projector_relations.1
+  · exact unitRel_of_relations _ 14 (activeIdent 4) projectors_shaped.2.1 projector_relations.2.1
+  · exact unitRel_of_relations _ 14 (activeIdent 5) projectors_shaped.2.2.1 projector_relations.2.2.1
+  · exact unitRel_of_relations _ 14 (activeIdent 6) projectors_shaped.2.2.2 projector_relations.2.2.2
+
+/-- … and their diagonal ones add up to the identity on the active flavours -/
+theorem eko_ident (nf : Nat) (hnf : nf = 3 ∨ nf = 4 ∨ nf = 5 ∨ nf = 6) :
+    E (fun s => (M 14 ((ekoTable nf).get (key s) 14) : Matrix (Fin 14) (Fin 14) A)) (oneS : Sector → A)
+      = M 14 (activeIdent nf) := by
+  rcases hnf with rfl | rfl | rfl | rfl
+  · exact ident_rel _ 14 (activeIdent 3) projectors_shaped.1 projector_relations.1
+  · exact ident_rel _ 14 (activeIdent 4) projectors_shaped.2.1 projector_relations.2.1
+  · exact ident_rel _ 14 (activeIdent 5) projectors_shaped.2.2.1 projector_relations.2.2.1
+  · exact ident_rel _ 14 (activeIdent 6) projectors_shaped.2.2.2 projector_relations.2.2.2
+
+/-- **Factorisation-scale RGE for what the code builds** (`partons @ ad_projectors(nf)`,
+`fmat @ values`): `fact_rge_flavour_space` with eko's regenerated projectors — no hypothesis on
+the projectors is left; `X0` has no gluon component, `X1` lives on the active flavours. -/
+theorem fact_rge_eko (nf : Nat) (hnf : nf = 3 ∨ nf = 4 ∨ nf = 5 ∨ nf = 6)
+    (ops : Label → A) (hp : Products ops) (b0 : ℚ)
+    (X0 X1 : Matrix (Fin 14) (Fin 14) A) (Pgq1 Pgg1 : A) :
+    let e := fun s => (M 14 ((ekoTable nf).get (key s) 14) : Matrix (Fin 14) (Fin 14) A)
+    X0 * e .gq = 0 → X0 * e .gg = 0 → X1 * M 14 (activeIdent nf) = X1 →
+    let P0 := E e (jointLo ops true)
+    let P1 := E e (fun s => match s with | .gq => Pgq1 | .gg => Pgg1 | s => F210 ops s)
+    let β : A := algebraMap ℚ A b0
+    X0 * E e (F110 ops) = X0 * P0 ∧
+    X0 * E e (F210 ops) + X1 * E e (F211 ops b0) = X1 * P0 + X0 * P1 - β • X1 ∧
+    (2 : A) • (X0 * E e (F220 ops b0)) = X0 * E e (F110 ops) * P0 - β • (X0 * E e (F110 ops)) := by
+  intro e hq hg h1
+  rw [← eko_ident nf hnf] at h1
+  exact fact_rge_flavour_space ops hp b0 e (eko_unitRel nf hnf) X0 X1 hq hg h1 Pgq1 Pgg1
+
+end EkoTables
 
 end Yadism.C05
